@@ -298,7 +298,7 @@ def _run_threads(job):
         n_exec += 1
         rec = {'id': item['id'], 'p': header(sc), 'ev': strip(res.trace), 'sc': sc, 'seed': seed, 'strategy': strat,
                'eps': float(item.get('eps', 0.0)), 'status': res.status}
-        if res.status != 'ok' or res.exc is not None:
+        if res.status != 'ok' or res.exc is not None or res.thread_errors:
             rec.update(detail=res.detail, waitmap={k: repr(v) for k, v in (res.waitmap or {}).items()},
                        exc=repr(res.exc) if res.exc is not None else None, leftover=res.leftover)
             hangs.append(rec)
